@@ -76,6 +76,13 @@ pub fn min_cases(kind: &'static str, tier: &str, rng: &mut Rng, rep: &mut Report
         "all strings over {{A,C,G,T,N}} of length 0..={} for (w,m) in {:?}",
         maxlen, SMALL_WM
     ));
+    // a very long run of ambiguous bytes between two clean stretches
+    {
+        let mut s = gen::clean_seq(rng, 40, gen::Flavor::Uniform);
+        s.extend(std::iter::repeat(b'N').take(1_200_000));
+        s.extend(gen::clean_seq(rng, 40, gen::Flavor::Uniform));
+        cases.push(Case::new(kind, &[12.min(wmax), 5], &s, "long-gap"));
+    }
     // one very long clean sequence
     {
         let s = gen::clean_seq(rng, 66_000, gen::Flavor::Uniform);
